@@ -1220,10 +1220,8 @@ func readRecordSet(ctx context.Context, reader RecordReader, fileSize int64) (Re
 	wg.Add(1)
 	go func() {
 		defer func() {
-			if buildErr == nil {
-				if panicReport := recover(); panicReport != nil {
-					buildErr = NewFatalError(panicReport)
-				}
+			if panicReport := recover(); panicReport != nil && buildErr == nil {
+				buildErr = NewFatalError(panicReport)
 			}
 			panicCh <- true
 			wg.Done()
@@ -1260,10 +1258,8 @@ func readRecordSet(ctx context.Context, reader RecordReader, fileSize int64) (Re
 		panicOccurred := false
 
 		defer func() {
-			if readErr == nil && !panicOccurred {
-				if panicReport := recover(); panicReport != nil {
-					readErr = NewFatalError(panicReport)
-				}
+			if panicReport := recover(); panicReport != nil && readErr == nil && !panicOccurred {
+				readErr = NewFatalError(panicReport)
 			}
 			close(rowch)
 			wg.Done()
@@ -1368,10 +1364,8 @@ func loadViewFromJsonLinesFile(ctx context.Context, flags *option.Flags, fp *fil
 	wg.Add(1)
 	go func() {
 		defer func() {
-			if buildErr == nil {
-				if panicReport := recover(); panicReport != nil {
-					buildErr = NewFatalError(panicReport)
-				}
+			if panicReport := recover(); panicReport != nil && buildErr == nil {
+				buildErr = NewFatalError(panicReport)
 			}
 			panicCh <- true
 			wg.Done()
@@ -1406,10 +1400,8 @@ func loadViewFromJsonLinesFile(ctx context.Context, flags *option.Flags, fp *fil
 		panicOccurred := false
 
 		defer func() {
-			if readErr == nil && !panicOccurred {
-				if panicReport := recover(); panicReport != nil {
-					readErr = NewFatalError(panicReport)
-				}
+			if panicReport := recover(); panicReport != nil && readErr == nil && !panicOccurred {
+				readErr = NewFatalError(panicReport)
 			}
 			close(rowch)
 			wg.Done()
